@@ -26,6 +26,9 @@ import valida.schema
 from .terms import snap, diff_path, attr_locus
 
 VALIDA_DIR = os.path.dirname(os.path.abspath(valida.__file__)) + os.sep
+# code whose lines / instructions are pre-emption points (the engine self-test
+# adds a toy module of its own)
+TRACE_DIRS = (VALIDA_DIR,)
 
 
 class HarnessError(Exception):
@@ -633,7 +636,7 @@ class Engine:
 
     def _on_instruction(self, code, offset):
         """sys.monitoring INSTRUCTION callback (opcode granularity)."""
-        if not code.co_filename.startswith(VALIDA_DIR):
+        if not code.co_filename.startswith(TRACE_DIRS):
             return sys.monitoring.DISABLE
         c = self._tid_caller.get(threading.get_ident())
         if c is None or not self.in_op[c] or self.killed:
@@ -723,7 +726,7 @@ class Engine:
             return ltrace
 
         def gtrace(frame, event, arg):
-            if event == "call" and frame.f_code.co_filename.startswith(VALIDA_DIR):
+            if event == "call" and frame.f_code.co_filename.startswith(TRACE_DIRS):
                 return ltrace
             return None
 
@@ -731,6 +734,8 @@ class Engine:
 
     def _point(self, c, frame):
         """A pre-emption point inside an operation of caller c."""
+        if c != self.current:
+            raise HarnessError(f"baton exclusivity violated: caller {c} runs while {self.current} holds the baton")
         self.step += 1
         step = self.step
         self.op_local_steps[c] += 1
@@ -771,7 +776,7 @@ class Engine:
         seen = set()
         while f is not None and depth < 40:
             code = f.f_code
-            if code.co_filename.startswith(VALIDA_DIR):
+            if code.co_filename.startswith(TRACE_DIRS):
                 q = code.co_qualname
                 p = PROBE_FUNCS.get(q)
                 if p and p not in seen:
@@ -828,7 +833,7 @@ def count_steps(fn, granularity="line", cap=2_000_000):
     if granularity == "opcode":
 
         def cb(code, offset):
-            if not code.co_filename.startswith(VALIDA_DIR):
+            if not code.co_filename.startswith(TRACE_DIRS):
                 return sys.monitoring.DISABLE
             n[0] += 1
             if n[0] > cap:
@@ -849,7 +854,7 @@ def count_steps(fn, granularity="line", cap=2_000_000):
         return ltrace
 
     def gtrace(frame, event, arg):
-        if event == "call" and frame.f_code.co_filename.startswith(VALIDA_DIR):
+        if event == "call" and frame.f_code.co_filename.startswith(TRACE_DIRS):
             return ltrace
         return None
 
